@@ -1111,6 +1111,11 @@ def gen_gmx_cases(ctx):
     precisions, forward/backward, varying boxes, exit codes incl. signals, limits around the crossing frame"""
     rng = ctx.rng
     cases = []
+    # witness of the velocity-direction finding: backward propagation, the file velocities 2, -1, 3 must reach a
+    # velocity-dependent order parameter as -2, 1, -3 (vel_rev = True); GROMACS hands over 2, -1, 3
+    cases.append(dict(engine="gromacs", frames=[(1.0, 16.0, 2.0), (1.5, 18.0, -1.0), (9.0, 32.0, 3.0)],
+                      sched=[(1, 3, 0, 1)] * 8 + [(1, 3, 0, 0)], code=0, maxlen=6, left=0.5, right=8.0, rev=1, vel_rev0=False,
+                      sub=1, natoms=40, double=False, tag="gmx-witness"))
     H = 5 if ctx.quick else 7
     k = 0
     for n in (0, 1, 2):
@@ -1148,8 +1153,13 @@ def gen_gmx_cases(ctx):
     return cases
 
 
-def gmx_line(case, realised):
+def gmx_line(case, realised, repaired=False):
+    """repaired = the order function gets -v on backward paths like in every other engine (`velSeen`); the model
+    `gmxExt` is the code as found (`gmxVelSeen rev v = v`, theorem gmxVelSeen_eq), so the repaired prediction is
+    obtained from it by negating the file velocities of a backward case"""
     frames = case["frames"]
+    if repaired and case["rev"]:
+        frames = [(d, L, -vx) for (d, L, vx) in frames]
     start = case.get("start", frames[0] if frames else (1.0, 16.0, 0.0))
     ds = sorted({f[0] for f in frames})
     Ls = sorted({f[1] for f in frames} | {start[1]})
@@ -1399,6 +1409,8 @@ def _run(ctx):
         if "harness_error" in obs:
             _infra(case, obs)
     gans = ctx.driver([gmx_line(c, o["realised"]) for c, o in zip(gcases, gobs)]) if (have_model and gcases) else []
+    gans_rep = ctx.driver([gmx_line(c, o["realised"], True) for c, o in zip(gcases, gobs)]) if (have_model and gcases) else []
+    gmx_consistent = {"asis", "rep"}
     for k, (case, obs) in enumerate(zip(gcases, gobs)):
         ctx.count(1, engine="gromacs")
         ctx.hit(f"gromacs:{case['tag']}")
@@ -1408,18 +1420,29 @@ def _run(ctx):
                           case["code"], case["natoms"], case["double"]))
         check_ext_property(ctx, case, obs)
         if have_model:
-            m = parse_model(gans[k])
-            cv, mv = code_view(obs), model_view(m)
-            same = (cv == mv and obs["ticks"] == m["ticks"] and (obs["proc"] == "stopped") == m["dead"]
-                    and (obs["returncode"] is None or not m["dead"]
-                         or obs["returncode"] == (-15 if m["killed"] else case["code"])))
-            if not same:
+            cv = code_view(obs)
+            agree = []
+            views = {}
+            for variant, ans in (("asis", gans[k]), ("rep", gans_rep[k])):
+                m = parse_model(ans)
+                mv = model_view(m)
+                views[variant] = {**mv, "ticks": m["ticks"], "dead": m["dead"], "killed": m["killed"]}
+                if (cv == mv and obs["ticks"] == m["ticks"] and (obs["proc"] == "stopped") == m["dead"]
+                        and (obs["returncode"] is None or not m["dead"]
+                             or obs["returncode"] == (-15 if m["killed"] else case["code"]))):
+                    agree.append(variant)
+            if not agree:
                 ctx.disagree({"engine": "gromacs", "case": case, "realised": obs["realised"]},
-                             {**cv, "ticks": obs["ticks"], "proc": obs["proc"], "returncode": obs["returncode"]},
-                             {**mv, "ticks": m["ticks"], "dead": m["dead"], "killed": m["killed"]})
+                             {**cv, "ticks": obs["ticks"], "proc": obs["proc"], "returncode": obs["returncode"]}, views)
+            elif len(agree) == 1:
+                gmx_consistent &= set(agree)
         if k % 211 == 0:
             ctx.sample({"engine": "gromacs", "case": {q: case[q] for q in ("frames", "rev", "code", "maxlen", "natoms", "double")},
                         "realised_schedule": obs["realised"], "result": code_view(obs)})
+    if have_model and not gmx_consistent:
+        ctx.disagree({"engine": "gromacs", "what": "velocity variant"},
+                     "some backward cases agree only with the as-found model, others only with the repaired one", "one variant")
+    ctx.extra["gromacs_velocity_variant_consistent_with"] = sorted(gmx_consistent)
     # ================================================================= in-process engines
     icases = gen_inproc_cases(ctx)
     iobs = [run_any(c) for c in icases]
